@@ -730,6 +730,7 @@ class Mailbox:
         # (will only be one for conflicting commands)
         #
         self.executing_tasks = []
+        imap_cmd: IMAPClientCommand | None = None
         while True:
             try:
                 # Block until we have an IMAP Command that wants to run on this
@@ -820,8 +821,12 @@ class Mailbox:
                     "mbox: '%s', mailbox deleted exiting management task",
                     self.name,
                 )
+                if imap_cmd is not None:
+                    imap_cmd.ready.set()
                 return
             except RuntimeError as e:
+                if imap_cmd is not None:
+                    imap_cmd.ready.set()
                 if "Event loop is closed" in str(e):
                     return
                 self.logger.exception(
@@ -831,6 +836,15 @@ class Mailbox:
                 )
                 return
             except asyncio.CancelledError:
+                # We are being shut down. `shutdown()` releases the commands
+                # that are still in the queue; the command we already took
+                # off the queue but have not let proceed yet has to be
+                # released (here, and wherever else this task ends) or it
+                # would wait until its timeout. It will see that the mailbox
+                # has been deleted or shutdown.
+                #
+                if imap_cmd is not None:
+                    imap_cmd.ready.set()
                 return
             except Exception as e:
                 # We ignore all other exceptions because otherwise the
